@@ -48,7 +48,7 @@ BUDGET = {
     "thorough": {"shards": 16, "examples": 6000},
 }
 
-ZOO_NAMES = schemas.GROUP_V + schemas.GROUP_X + schemas.MARK_VARIANTS
+ZOO_NAMES = schemas.GROUP_V + schemas.GROUP_X + schemas.MARK_VARIANTS + ["restricted_marks", "restricted_marks"]
 
 OPS = [
     "resolve",
